@@ -270,6 +270,7 @@ fn props() -> Vec<Property> {
             Scenario { name: "N-graceful-goaway", engine: "N", run: c14::run_goaway, quick: 10_000, thorough: 500_000, grid: 0, what: "the server retires connections gracefully (GOAWAY after max_connection_age 5 ms..1 s) while the channel is idle; 2..5 rounds of calls at quiescent points, lazy/eager, with/without client keep-alive: every round's call (at the latest the second attempt) succeeds on a fresh connection" },
             Scenario { name: "N-balanced-channel", engine: "N", run: c14::run_balanced, quick: 10_000, thorough: 500_000, grid: 0, what: "a balanced channel (tower p2c Balance over one lazily connected endpoint, as Channel::balance_channel builds; hook H4 supplies the simulated connector; more endpoints would bring in p2c's entropy-seeded random choice) under a script of failing/succeeding attempts and killed connections: no call hangs, failures are UNAVAILABLE and never outnumber the failed attempts, and the channel recovers once attempts succeed" },
             Scenario { name: "N-connect-timeout", engine: "N", run: c14::run_connect_timeout, quick: 4_000, thorough: 100_000, grid: 0, what: "Endpoint::connect_timeout (50 ms / 2 s) against a connection attempt that never completes or completes too late, eager and lazy channels over the simulated connector: the attempt is given up after the timeout (definite error, no hang) and the next call succeeds" },
+            Scenario { name: "N-uri-without-scheme", engine: "N", run: c14::run_uri_without_scheme, quick: 1_000, thorough: 20_000, grid: 0, what: "an endpoint URI without a scheme (parses as an authority): eager connect fails or every call gets the same definite error; no hang, no panic in the channel's background task" },
         ],
         rule: "one run = one fault script (or one kill offset) x lazy/eager x network fragmentation; every run non-trivial; distinct = distinct hash of structural tape decisions and of the ordered network-event kinds; the first 726 runs enumerate all scripts of length <= 5",
         real_vs_stub: RVS_N.to_vec(),
